@@ -164,7 +164,7 @@ ArgVarOK(c) == Len(c.a) >= 1 /\ PrintableB(c.r) /\ \A i \in 1..Len(c.a) : c.a[i]
 ArgVarCases == {c \in StrCases(2) \cup ContainsCases(2, 1) \cup DecCases \cup ArrCases(2) \cup SliceCases \cup NumCases : ArgVarOK(c)}
 ArgVarExpect(c) == LET v == CallFn(c.f, c.r, c.a) IN
                    CASE v.t = "err" -> [kind |-> "err", why |-> v.why]
-                     [] v.t \in {"unspec", "oneof", "perm"} -> [kind |-> "any"]
+                     [] v.t \in {"unspec", "oneof", "perm", "erroror"} -> [kind |-> "any"]
                      [] OTHER -> IF PrintableB(v) THEN [kind |-> "out", out |-> ShowB(v) \o "|" \o ShowB(v) \o "|" \o ShowB(c.r) \o ArgShows(c.a, 1)]
                                  ELSE [kind |-> "any"]
 ArgVarRecord(c) == [src |-> ArgVarSrc(c), data |-> <<>>, expect |-> ArgVarExpect(c), tags |-> <<"c11", "argvars", c.r.t, c.f>>]
@@ -194,6 +194,7 @@ Expect(c) ==
          [] v.t = "unspec" -> [kind |-> "any"]
          [] v.t = "oneof" -> [kind |-> "oneof", outs |-> {ShowB(x) \o Tail_(c) : x \in v.alts}]
          [] v.t = "perm" -> [kind |-> "oneof", outs |-> {JoinB(p, ", ") \o Tail_(c) : p \in Perms(v.of)}]
+         [] v.t = "erroror" -> [kind |-> "errorout", out |-> ShowB(v.val) \o Tail_(c), why |-> "crossed bounds"]
          [] OTHER -> IF PrintableB(v) THEN [kind |-> "out", out |-> ShowB(v) \o Tail_(c)] ELSE [kind |-> "any"]
 \* C11 also says: a wrong receiver type for a name is an error even when the name exists for another type
 IsMiss(c) == (c.r.t = "str" /\ c.f \notin StrFns \cup {"raw"}) \/ (c.r.t = "arr" /\ c.f \notin ArrFns)
@@ -210,6 +211,6 @@ Init == cas \in Cases /\ rec = [src |-> ""]
 Next == rec.src = "" /\ rec' = (IF Family = "conv" THEN ConvRecord(cas) ELSE IF Family = "convdata" THEN ConvDataRecord(cas) ELSE IF Family = "twice" THEN TwiceRecord(cas)
                                       ELSE IF Family = "argvars" THEN ArgVarRecord(cas) ELSE Record(cas)) /\ UNCHANGED cas
 Spec == Init /\ [][Next]_vars
-Total == (rec.src # "" /\ Family \notin {"conv", "convdata"}) => rec.expect.kind \in {"out", "err", "any", "oneof"}
+Total == (rec.src # "" /\ Family \notin {"conv", "convdata"}) => rec.expect.kind \in {"out", "err", "any", "oneof", "errorout"}
 Gen == (rec.src # "" /\ Emit_) => PrintT(ToJson(rec))
 =============================================================================
